@@ -520,7 +520,7 @@ class KernelRIM(LinearModel):
         >>> X,y=load_iris(return_X_y=True)
         >>> clf = KernelRIM(random_state=0).fit(X)
         >>> clf.predict(X[:2,:])
-        array([2, 2])
+        array([0, 0])
         >>> clf.predict_proba(X[:2,:]).shape
         (2, 3)
         """
@@ -565,6 +565,8 @@ class KernelRIM(LinearModel):
         self.input_data_ = X
 
         training_kernel = self._compute_kernel(X)
+        # The weight penalty involves the kernel between all training samples, whatever the batch
+        self._training_kernel = training_kernel
         super().fit(training_kernel, y)
 
         self.n_features_in_ = X.shape[1]
@@ -573,8 +575,9 @@ class KernelRIM(LinearModel):
 
     def _compute_grads(self, X, y_pred, gradient):
         base_grads = super()._compute_grads(X, y_pred, gradient)
-        # Add the regularisation gradient on the weight matrix
-        base_grads[0] += 2 * self.reg * np.dot(X, self.W_)
+        # Add the regularisation gradient on the weight matrix. The rows of X follow the (shuffled) batch whereas
+        # the rows of W_ follow the training samples, so the penalty must use the complete training kernel.
+        base_grads[0] += 2 * self.reg * np.dot(self._training_kernel, self.W_)
         return base_grads
 
 
